@@ -28,6 +28,7 @@ Print Assumptions C02_complete.
    fuel / the early invalid-jump leaf of C01_badjump_refuted) *)
 Theorem C02_total :
   forall lim se rho oracle loop,
+    Forall (fun b => 0 <= b < 256) (se_code se) ->
     oracle_sound rho oracle ->
     forall fuel sg s,
       R se rho sg s -> sat rho (ss_path sg) ->
